@@ -13,6 +13,7 @@ C->S     : seeded random histories over the public API (L <= 6) and histories on
 """
 
 import concurrent.futures as cf
+import json
 import warnings
 
 import numpy as np
@@ -106,7 +107,7 @@ def _op_of(act, rng, s):
     if op == "sample":
         return {"ev": "sample" if act["many"] else "sample_configuration", "C": 2, "with_info": True}
     if op in ("forget", "calc"):
-        return {"ev": op, "clear": b()}
+        return {"ev": op, "clear": bool(act.get("clear", True))}
     raise MachineryError("unknown model action %r" % (act,))
 
 
@@ -133,6 +134,19 @@ def _model_of(st, exactrec):
 
 def split_behaviours(vals):
     return [v for v in vals if isinstance(v, list) and len(v) > 1 and all(isinstance(x, dict) and x.get("depth") == k for k, x in enumerate(v))]
+
+
+def pick_behaviours(behs, rng, per_prefix=1):
+    """the simulator prints every candidate last step of each of its traces: keep a few per common prefix"""
+    groups = {}
+    for bh in behs:
+        groups.setdefault(json.dumps(bh[:-1], sort_keys=True), []).append(bh)
+    out = []
+    for key in sorted(groups):
+        g = groups[key]
+        for k in rng.choice(len(g), size=min(per_prefix, len(g)), replace=False):
+            out.append(g[int(k)])
+    return out
 
 
 # ----------------------------------------------------------------------------- C->S random histories
@@ -196,7 +210,7 @@ def gen_op(rng, s, ev, exact):
         where = sorted(int(v) for v in rng.choice(L, n, replace=False))
         if b(0.3):
             where = where[::-1]
-        return {"ev": ev, "where": where, "rev": b(), "inplace": b(0.6), "unitary": b(0.7),
+        return {"ev": ev, "where": where, "rev": b(), "inplace": b(0.6), "unitary": b(0.7), "fit_its": ri(0, 4),
                 "method": str(rng.choice(SUBMPO_METHODS)), "via": str(rng.choice(["gate_nonlocal", "gate", "submpo"]))}
     if ev == "gate_with_mpo":
         return {"ev": ev, "rev": b(), "inplace": b()}
@@ -346,10 +360,10 @@ def run(ctx):
     nsim = 90 if quick else 900
     res = T.run_tlc("MC_C08", "MC_sim.cfg", ctx.spec_dir, workers=1, coverage=False, simulate="num=%d" % nsim,
                     depth=10, seed=23 + ctx.seed, scratch=ctx.scratch, timeout=1200)
-    behs = split_behaviours(T.parse_printed_json(res.output))
+    rng = np.random.default_rng(1000 + ctx.seed)
+    behs = pick_behaviours(split_behaviours(T.parse_printed_json(res.output)), rng, 1 if quick else 2)
     if len(behs) < nsim // 2:
         raise MachineryError("could not read the simulated behaviours back (%d of %d)" % (len(behs), nsim))
-    rng = np.random.default_rng(1000 + ctx.seed)
     recs = []
     for k, bh in enumerate(behs):
         recs += replay_behaviour(bh, rng, k)
